@@ -8,7 +8,7 @@ cd "$(dirname "$0")/../.."
 export GOFLAGS=-mod=mod GOPROXY=off GOSUMDB=off GOTOOLCHAIN=local CGO_ENABLED=0
 repo="${VERIF_REPO:-/repo}"
 tag=$(echo "$repo" | md5sum | cut -c1-8)
-ov=".build/c03/overlay-$tag"
+ov="$PWD/.build/c03/overlay-$tag"
 mkdir -p .build/bin .build/c03
 (cd cmd/instr && go build -o ../../.build/bin/instr .)
 .build/bin/instr -repo "$repo" -out "$ov" -yield -maporder
